@@ -1,8 +1,184 @@
 import DepsDev.Drive.Loop
-open DepsDev
+import DepsDev.Model.Resolve.PypiHyp
 
-/-- Stub: replaced by the property's builder. -/
-def handleC08 : List String → String
+/-! Line-protocol driver for C08: decodes the universe of an op line (format in
+`harness/cmd/c08/universe.go`), runs the model, prints the canonical result. -/
+open DepsDev DepsDev.Resolve.Pypi
+
+namespace C08Drv
+
+/-- decoded universe plus the tables needed to print results -/
+structure Dec where
+  pkgNames : Array String := #[]            -- hex
+  verNames : Array (Array String) := #[]    -- hex, per package
+  exts : Array (List Nat) := #[]
+  reqs : Array (Array (List Req)) := #[]    -- per package, per version (reversed while parsing)
+  extraIds : Array String := #[]            -- interned extras (hex)
+  tyIds : Array (String × String) := #[]    -- interned (env token, extras token)
+  rowKeys : Array (String × String) := #[]  -- (pkg hex, spec hex) per match row
+  rows : Array MatchRow := #[]
+
+def findIdx (a : Array String) (s : String) : Option Nat := a.findIdx? (· == s)
+
+def intern (a : Array String) (s : String) : Array String × Nat :=
+  match findIdx a s with
+  | some i => (a, i)
+  | none => (a.push s, a.size)
+
+def splitComma (b : Bytes) : List Bytes :=
+  let rec go : Bytes → Bytes → List Bytes
+    | [], cur => [cur.reverse]
+    | x :: xs, cur => if x == 44 then cur.reverse :: go xs [] else go xs (x :: cur)
+  go b []
+
+def containsEqEq : Bytes → Bool
+  | 61 :: 61 :: _ => true
+  | _ :: rest => containsEqEq rest
+  | [] => false
+
+def lowerAscii (b : Bytes) : Bytes := b.map fun x => if 65 ≤ x && x ≤ 90 then x + 32 else x
+
+def parseCells (s : String) : Option Marker :=
+  if s == "-" then some .none
+  else if s == "E" then some .error
+  else do
+    let cs ← s.toList.mapM fun c =>
+      if c == '0' then some Cell.f else if c == '1' then some Cell.t else if c == 'P' then some Cell.p else none
+    some (.table cs)
+
+def splitList (s : String) : List String := if s == "" then [] else s.splitOn ","
+
+/-- first pass: package names, version names (P and V tokens only) -/
+def pass1 : List String → Dec → Option Dec
+  | [], d => some d
+  | "P" :: n :: _x :: rest, d =>
+    pass1 rest { d with pkgNames := d.pkgNames.push n, verNames := d.verNames.push #[] }
+  | "V" :: v :: rest, d =>
+    if d.verNames.size == 0 then none
+    else
+      let i := d.verNames.size - 1
+      pass1 rest { d with verNames := d.verNames.modify i (·.push v) }
+  | "R" :: _ :: _ :: _ :: _ :: _ :: rest, d => pass1 rest d
+  | "M" :: p :: s :: _ :: _ :: _ :: rest, d => pass1 rest { d with rowKeys := d.rowKeys.push (p, s) }
+  | _, _ => none
+
+def internExtras (d : Dec) (hexes : List String) : Dec × List Nat :=
+  hexes.foldl (fun (acc : Dec × List Nat) h =>
+    let (a, i) := intern acc.1.extraIds h
+    ({ acc.1 with extraIds := a }, acc.2 ++ [i])) (d, [])
+
+def parseVers (d : Dec) (pkgHex : String) (s : String) : Option (Option (List Nat)) :=
+  if s == "err" then some none
+  else do
+    let p ← findIdx d.pkgNames pkgHex
+    let vs ← d.verNames[p]?
+    let ids ← (splitList s).mapM fun h => findIdx vs h
+    some (some ids)
+
+/-- second pass: requirements and match rows; `cur` = (package, version) being filled -/
+def pass2 : List String → Dec → Option Dec
+  | [], d => some d
+  | "P" :: _ :: x :: rest, d => do
+    let xs ← if x.startsWith "X=" then some (splitList (x.drop 2).toString) else none
+    let (d, ids) := internExtras d xs
+    pass2 rest { d with exts := d.exts.push ids, reqs := d.reqs.push #[] }
+  | "V" :: _ :: rest, d =>
+    if d.reqs.size == 0 then none
+    else pass2 rest { d with reqs := d.reqs.modify (d.reqs.size - 1) (·.push []) }
+  | "R" :: p :: s :: env :: ex :: tr :: rest, d => do
+    let pi := (findIdx d.pkgNames p).getD d.pkgNames.size
+    let row ← d.rowKeys.findIdx? (· == (p, s))
+    let sb ← Bytes.ofHex s
+    let exIds ← if ex == "~" then some (d, []) else do
+      let eb ← Bytes.ofHex ex
+      some (internExtras d ((splitComma eb).map Bytes.toHex))
+    let (d, exl) := exIds
+    let ty := match d.tyIds.findIdx? (· == (env, ex)) with
+      | some i => (d.tyIds, i)
+      | none => (d.tyIds.push (env, ex), d.tyIds.size)
+    let d := { d with tyIds := ty.1 }
+    let m ← parseCells tr
+    let r : Req := { pkg := pi, spec := row, ty := ty.2, nonEmpty := !sb.isEmpty, hasEqEq := containsEqEq sb,
+                     extras := exl, marker := m }
+    if d.reqs.size == 0 then none
+    else
+      let i := d.reqs.size - 1
+      let vs := d.reqs[i]!
+      if vs.size == 0 then none
+      else pass2 rest { d with reqs := d.reqs.modify i (fun vs => vs.modify (vs.size - 1) (· ++ [r])) }
+  | "M" :: p :: _ :: hp :: n :: pr :: rest, d => do
+    let nv ← if n.startsWith "n=" then parseVers d p (n.drop 2).toString else none
+    let pv ← if pr.startsWith "p=" then parseVers d p (pr.drop 2).toString else none
+    let h ← if hp == "1" then some true else if hp == "0" then some false else none
+    pass2 rest { d with rows := d.rows.push ⟨h, nv, pv⟩ }
+  | _, _ => none
+
+def toUniverse (d : Dec) : Universe :=
+  { pkgs := (List.range d.pkgNames.size).map fun i =>
+      let nameB := (Bytes.ofHex (d.pkgNames[i]!)).getD []
+      { delay := lowerAscii nameB == Gen.C08Consts.delayedName,
+        exts := d.exts[i]!,
+        vers := (d.reqs[i]!).toList }
+    rows := d.rows.toList }
+
+def parseRoot (d : Dec) (tok : String) : Option Ver :=
+  if !tok.startsWith "root=" then none
+  else
+    match ((tok.drop 5).toString).splitOn "@" with
+    | [n, v] =>
+      match findIdx d.pkgNames n with
+      | none => some ⟨d.pkgNames.size, 0⟩
+      | some p => some ⟨p, (findIdx (d.verNames[p]!) v).getD (d.verNames[p]!).size⟩
+    | _ => none
+
+def verTok (d : Dec) (v : Ver) : String :=
+  match d.pkgNames[v.pkg]?, (d.verNames[v.pkg]?).bind (·[v.id]?) with
+  | some n, some s => n ++ "@" ++ s
+  | _, _ => "?"
+
+def edgeTok (d : Dec) (e : Edge) : String :=
+  let spec := match d.rowKeys[e.req.spec]? with | some (_, s) => s | none => "?"
+  let (env, ex) := match d.tyIds[e.req.ty]? with | some t => t | none => ("?", "?")
+  verTok d e.src ++ ">" ++ verTok d e.dst ++ ":" ++ spec ++ ":" ++ env ++ ":" ++ ex
+
+def sortStrs (xs : List String) : List String := xs.mergeSort (fun a b => compare a b != .gt)
+
+def b01 (b : Bool) : String := if b then "1" else "0"
+
+def decode (toks : List String) : Option (Dec × Ver) := do
+  match toks with
+  | rootTok :: rest =>
+    let d ← pass1 rest {}
+    let d ← pass2 rest d
+    if d.reqs.size != d.pkgNames.size || d.rows.size != d.rowKeys.size then none
+    let root ← parseRoot d rootTok
+    some (d, root)
+  | [] => none
+
+def handle : List String → String
+  | "resolve" :: toks =>
+    match decode toks with
+    | none => "bad-op"
+    | some (d, root) =>
+      match Resolve (toUniverse d) root with
+      | .err => "err"
+      | .panic => "panic"
+      | .fuel => "model-fuel"
+      | .graphError => "ok gerr=1"
+      | .graph g _ _ =>
+        let rootTok := match g.nodes.head? with | some r => verTok d r | none => "none"
+        "ok gerr=0 root=" ++ rootTok ++ " N=" ++ ",".intercalate (sortStrs (g.nodes.map (verTok d))) ++
+          " E=" ++ ",".intercalate (sortStrs (g.edges.map (edgeTok d)))
+  | "classify" :: toks =>
+    match decode toks with
+    | none => "bad-op"
+    | some (d, root) =>
+      let U := toUniverse d
+      match Resolve U root with
+      | .graph _ S ids => "ok late=" ++ b01 (!noLateExtras U S) ++ " route=" ++ b01 (!routeClosed S ids)
+      | _ => "ok late=0 route=0"
   | _ => "bad-op"
 
-def main : IO Unit := Drive.runDriver "C08" handleC08
+end C08Drv
+
+def main : IO Unit := Drive.runDriver "C08" C08Drv.handle
